@@ -361,6 +361,20 @@ def balance (mode : Mode) (allowDup : Bool) (solver : Mat → Candidate) (p : Pr
   dupSearch mode (fun r pr => balanceCore mode solver { p with reactants := r, products := pr })
     (p.reactants.length + 1) allowDup p.reactants p.products
 
+/-- the duplicate-free call from the arguments AS PASSED (`substances` a dict / None / a key string, sides
+    possibly sets): `_intersect` check, resolution, sorting of set sides, then `balanceCore` -/
+def balanceVia (mode : Mode) (solver : Mat → Candidate) (table : List (String × Comp)) (arg : SubstArg)
+    (reacIsSet prodIsSet : Bool) (reac prod : List String) : Except Err Result :=
+  match setupVia table arg reacIsSet prodIsSet reac prod with
+  | .error e => .error e
+  | .ok (p, _) => balanceCore mode solver p
+
+/-- `balance_stoichiometry(reactants, products, substances, substance_factory, underdetermined, allow_duplicates)`
+    for list-valued sides: the duplicate search around `balanceVia` (every sub-call resolves `substances` itself) -/
+def balanceCall (mode : Mode) (allowDup : Bool) (solver : Mat → Candidate) (table : List (String × Comp))
+    (arg : SubstArg) (reac prod : List String) : Except Err Result :=
+  dupSearch mode (fun r p => balanceVia mode solver table arg false false r p) (reac.length + 1) allowDup reac prod
+
 /-! ### certificate checker for the "smallest integers" mode -/
 
 /-- all vectors of length `n` with entries ≥ 1 and sum ≤ `budget` -/
